@@ -14,9 +14,9 @@ EXTENDS SchedOps, TLC, Json, IOUtils
 Batch  == JsonDeserialize(IOEnv.TRACE_FILE)
 Traces == Batch.traces
 
-VARIABLES tid, l, O, active, pool, H, where, rep, rel, hist, named, namedc, compl, errs, fin
+VARIABLES tid, l, O, active, pool, H, where, rep, rel, hist, tagged, named, namedc, compl, errs, fin
 
-vars == <<tid, l, O, active, pool, H, where, rep, rel, hist, named, namedc, compl, errs, fin>>
+vars == <<tid, l, O, active, pool, H, where, rep, rel, hist, tagged, named, namedc, compl, errs, fin>>
 
 T       == Traces[tid]
 Ev      == T.events
@@ -40,7 +40,15 @@ ToOcc(nn) ==
    lfs   |-> [n \in Node |-> nn[n + 1].lfs],
    mem   |-> [n \in Node |-> nn[n + 1].mem]]
 
-HistOf(h, t) == IF Sh(t).colo = "none" THEN {} ELSE h[Sh(t).colo]
+\* nodes a tagged task may use ({} == no restriction): the nodes its colocate tag used before; a NEW tag
+\* marked exclusive avoids the nodes any tag has used so far (`tagged`, which only grows) - unless every
+\* node is tagged already, then it shares
+Excl(t) == IF "excl" \in DOMAIN Sh(t) THEN Sh(t).excl ELSE FALSE
+HistOfX(h, tg, t) == IF Sh(t).colo = "none" THEN {}
+                     ELSE IF h[Sh(t).colo] # {} THEN h[Sh(t).colo]
+                     ELSE IF Excl(t) /\ tg # {} /\ (Node \ tg) # {} THEN Node \ tg
+                     ELSE {}
+HistOf(h, t) == HistOfX(h, tagged, t)
 
 \* tasks whose placement was decided by the application (task description carries slots)
 IsSup(t) == Len(Sup(t)) > 0
@@ -63,7 +71,7 @@ Init ==
   /\ H = [t \in Uids |-> <<>>]
   /\ where = [t \in Uids |-> "none"]
   /\ rep = [t \in Uids |-> 0] /\ rel = [t \in Uids |-> 0]
-  /\ hist = [g \in Tags |-> {}]
+  /\ hist = [g \in Tags |-> {}] /\ tagged = {}
   /\ named = {} /\ namedc = {}
   /\ compl = {}         \* tasks for which the executor sent its unschedule message
   /\ errs = {} /\ fin = FALSE
@@ -107,13 +115,13 @@ Step ==
                     \cup UNION {E(where[t] = "none", "C04.ArrivedTwice") : t \in SeqSet(e.uids)}
                     \cup E(lo = O, "C01.MapChangedSilently")
                     \cup PoolErrs(lp, where')
-               /\ UNCHANGED <<H, rep, rel, hist, named, namedc, compl>>
+               /\ UNCHANGED <<H, rep, rel, hist, tagged, named, namedc, compl>>
           [] e.ev = "CancelReq" ->
                /\ named' = named \cup SeqSet(e.uids)
                \* requests that reached the scheduler process (not only the parent part)
                /\ namedc' = IF e.to = "child" THEN namedc \cup SeqSet(e.uids) ELSE namedc
                /\ errs' = errs \cup e0 \cup E(lo = O, "C01.MapChangedSilently")
-               /\ UNCHANGED <<H, where, rep, rel, hist, compl>>
+               /\ UNCHANGED <<H, where, rep, rel, hist, tagged, compl>>
           [] e.ev = "QGet" ->
                \* a task waiting for its named environment goes to the pool untried
                /\ where' = [t \in Uids |-> IF e.kind = "S" /\ t \in SeqSet(e.uids) /\ where[t] = "queued"
@@ -121,7 +129,7 @@ Step ==
                                            ELSE where[t]]
                /\ errs' = errs \cup e0 \cup E(lo = O, "C01.MapChangedSilently")
                     \cup PoolErrs(lp, where')
-               /\ UNCHANGED <<H, rep, rel, hist, named, namedc, compl>>
+               /\ UNCHANGED <<H, rep, rel, hist, tagged, named, namedc, compl>>
           [] e.ev = "Try" ->
                LET t == e.uid sh == Sh(t) hs == HistOf(hist, t) IN
                IF e.res = "grant" THEN
@@ -131,6 +139,7 @@ Step ==
                  /\ H' = h2
                  /\ where' = [where EXCEPT ![t] = "granted"]
                  /\ hist' = IF sh.colo = "none" THEN hist ELSE [hist EXCEPT ![sh.colo] = NodesOf(p)]
+                 /\ tagged' = IF sh.colo = "none" THEN tagged ELSE tagged \cup NodesOf(p)
                  /\ errs' = errs \cup e0
                       \cup (IF IsSup(t)
                             THEN \* the application's placement is the requested shape
@@ -165,13 +174,13 @@ Step ==
                ELSE IF e.res = "nofit" THEN
                  /\ where' = [where EXCEPT ![t] = IF @ = "sched" THEN "nofit" ELSE @]
                  /\ errs' = errs \cup e0 \cup E(lo = O, "C01.MapChangedSilently") \cup PoolErrs(lp, where')
-                 /\ UNCHANGED <<H, rep, rel, hist, named, namedc, compl>>
+                 /\ UNCHANGED <<H, rep, rel, hist, tagged, named, namedc, compl>>
                ELSE \* raise
                  /\ where' = [where EXCEPT ![t] = "raised"]
                  /\ errs' = errs \cup e0 \cup E(lo = O, "C01.MapChangedSilently")
                       \cup E(Oversize(sh) \/ ~FitsIdleT(t, hist) \/ e.legit, "C04.FalseFailure")
                       \cup PoolErrs(lp, where')
-                 /\ UNCHANGED <<H, rep, rel, hist, named, namedc, compl>>
+                 /\ UNCHANGED <<H, rep, rel, hist, tagged, named, namedc, compl>>
           [] e.ev = "Adv" ->
                LET t == e.uid IN
                /\ rep' = [rep EXCEPT ![t] = @ + 1]
@@ -197,14 +206,14 @@ Step ==
                          \cup E(lo = O, "C01.MapChangedSilently")
                          \cup PoolErrs(lp, where')
                     /\ UNCHANGED H
-               /\ UNCHANGED <<rel, hist, named, namedc, compl>>
+               /\ UNCHANGED <<rel, hist, tagged, named, namedc, compl>>
           [] e.ev = "Complete" ->
                /\ compl' = compl \cup {e.uid}
                /\ errs' = errs \cup e0 \cup E(lo = O, "C01.MapChangedSilently") \cup PoolErrs(lp, where)
-               /\ UNCHANGED <<H, where, rep, rel, hist, named, namedc>>
+               /\ UNCHANGED <<H, where, rep, rel, hist, tagged, named, namedc>>
           [] e.ev = "QGetU" ->
                /\ errs' = errs \cup e0 \cup E(lo = O, "C01.MapChangedSilently") \cup PoolErrs(lp, where)
-               /\ UNCHANGED <<H, where, rep, rel, hist, named, namedc, compl>>
+               /\ UNCHANGED <<H, where, rep, rel, hist, tagged, named, namedc, compl>>
           [] e.ev = "Release" ->
                LET t  == e.uid
                    h2 == [H EXCEPT ![t] = <<>>] IN
@@ -218,7 +227,7 @@ Step ==
                           THEN E(lo = Mark(O, H[t], "F"), "C03.NotRestored") ELSE {})
                     \cup (IF Holding(h2) = {} THEN E(lo = InitOcc, "C03.IdleNotInitial") ELSE {})
                     \cup PoolErrs(lp, where')
-               /\ UNCHANGED <<rep, hist, named, namedc, compl>>
+               /\ UNCHANGED <<rep, hist, tagged, named, namedc, compl>>
           [] e.ev = "Sleep" ->
                LET wt == Waiting(where) IN
                /\ where' = [t \in Uids |-> IF t \in wt /\ t \in lp THEN "waiting" ELSE where[t]]
@@ -257,17 +266,17 @@ Step ==
                                 THEN E(\E t \in lp : ~FitsNowC(InitOcc, t, hist, OffOf(e)), "C04.IdleStartsNone")
                                 ELSE {})
                           ELSE {})
-               /\ UNCHANGED <<H, rep, rel, hist, named, namedc, compl>>
+               /\ UNCHANGED <<H, rep, rel, hist, tagged, named, namedc, compl>>
           [] OTHER ->
                /\ errs' = errs \cup {"X.UnknownEvent"}
-               /\ UNCHANGED <<H, where, rep, rel, hist, named, namedc, compl>>
+               /\ UNCHANGED <<H, where, rep, rel, hist, tagged, named, namedc, compl>>
   /\ UNCHANGED tid
 
 Finish ==
   /\ ~fin /\ l > Len(Ev)
   /\ fin' = TRUE
   /\ PrintT(<<"RESULT", T.tid, errs>>)
-  /\ UNCHANGED <<tid, l, O, active, pool, H, where, rep, rel, hist, named, namedc, compl, errs>>
+  /\ UNCHANGED <<tid, l, O, active, pool, H, where, rep, rel, hist, tagged, named, namedc, compl, errs>>
 
 Next == Step \/ Finish
 Spec == Init /\ [][Next]_vars
